@@ -14,6 +14,7 @@ import (
 	"regexp"
 	"runtime"
 	"strings"
+	"syscall"
 	"time"
 
 	"github.com/coregx/coregex"
@@ -57,6 +58,15 @@ func (c *sctx) guard(prop, api, args string, fn func()) {
 		}
 	}()
 	fn()
+}
+
+// threadCPU returns the CPU time consumed so far by the calling OS thread (the goroutine must be locked to it).
+func threadCPU() time.Duration {
+	var ru syscall.Rusage
+	if err := syscall.Getrusage(1 /* RUSAGE_THREAD */, &ru); err != nil {
+		return 0
+	}
+	return time.Duration(ru.Utime.Nano() + ru.Stime.Nano())
 }
 
 func contentHash(b []byte) int {
@@ -884,21 +894,36 @@ func runSearch(args []string) {
 							}
 							return append(b, wb...)
 						}
-						// speed probe on 4200 bytes
-						pb := mk(4200)
-						t0 := time.Now()
-						func() {
-							defer func() { recover() }()
-							cg.FindIndex(pb)
-							cg.FindSubmatchIndex(pb)
-						}()
-						if el := time.Since(t0); el > time.Duration(len(pb))*1500*time.Nanosecond*2 {
-							rep.API("ladder:skipped-slow", 1)
-							break
+						// Cost guard: some patterns are superlinear (C05's business) and would take hours at these sizes.  The same shape
+						// is probed at 4200 bytes (and at 70 kB before the MB sizes); the CPU time of the calling thread - not wall time,
+						// which depends on the machine's load - is extrapolated QUADRATICALLY, and the size is skipped if that exceeds 2 s.
+						probe := func(pn int) time.Duration {
+							pb := mk(pn)
+							runtime.LockOSThread()
+							defer runtime.UnlockOSThread()
+							c0 := threadCPU()
+							func() {
+								defer func() { recover() }()
+								cg.Match(pb)
+								cg.FindIndex(pb)
+								cg.FindSubmatchIndex(pb)
+								cg.FindAllIndex(pb, 3)
+							}()
+							return threadCPU() - c0
+						}
+						est := float64(probe(4200)) * (float64(n) / 4200) * (float64(n) / 4200)
+						if n > 100000 && est <= float64(2*time.Second) {
+							est = float64(probe(70000)) * (float64(n) / 70000) * (float64(n) / 70000)
+						}
+						if est > float64(2*time.Second) {
+							rep.API(fmt.Sprintf("ladder:skipped-slow:%d", n), 1)
+							continue
 						}
 						b := mk(n)
 						lc := &sctx{rep: rep, props: pset, pat: pat, fam: rec.Fam, strat: strat, mode: "first", cg: cg, eng: eng, nc: rec.NC, b: b, s: string(b), scope: "ladder",
 							hx: core.Hex(ub) + "|" + core.Hex(vb) + "*|" + core.Hex(wb) + fmt.Sprintf("|%d", len(b))}
+						szArg := fmt.Sprintf("len=%d", len(b))
+						_ = szArg
 						cases++
 						rep.API(fmt.Sprintf("ladder:%d", n), 1)
 						if pset["C01"] || pset["C11"] {
